@@ -88,23 +88,45 @@ class C06(Prop):
     batch_max_hangs = 3     # per batch of 2000 lines; the rest of such a batch is reported as not executed
     design_ref = "DESIGN.md section 7, C06"
     level_text = ("Lean theorems: no step of the receive-path models (frame layer, request receive machine, uni-stream type "
-                  "resolution, control machine, QPACK/field parsing) returns the explicit panic outcome under the documented call "
-                  "patterns, and once the script has ended a stream (FIN/RESET) or the connection, no call waiting on it stays "
-                  "pending; tied to the source by the panic-site inventory (every unwrap/expect/assert/index/subtraction on the "
-                  "receive-path files is listed with the guard or lemma that covers it; an unlisted site breaks the obligation) and "
-                  "by adversarial peer scripts over SimQuic with panics caught per case")
-    level_note = ("trusted: Lean kernel + 3 standard axioms; the models (tied by the other properties' correspondence runs); "
-                  "tools/panic_sites.py + tools/panic_table.json (hand-written justifications); debug assertions and overflow checks "
-                  "are ON in the harness build so wrap-arounds would surface as panics; memory exhaustion is out of scope")
+                  "resolution, control machine, QPACK/field parsing) returns the explicit panic outcome - on a request stream for "
+                  "EVERY order of recv_data / recv_trailers calls from every state (no call-pattern hypothesis, after the repair of "
+                  "D-06t: recv_trailers tests has_data() first), the message head as the first call; once the script has ended a "
+                  "stream (FIN/RESET) or the connection - the connection error is an event of the model (H3.ConnClose, carried "
+                  "additively by the frame-stream model) - no call waiting on it stays pending, from any state; every send-side call "
+                  "(send_request incl. its wait for stream credit, send_response, send_data, send_trailers, finish with its grease "
+                  "frame) against every script of flow-control answers and error answers (STOP_SENDING => StreamTerminated, "
+                  "close/timeout => connection error) never panics, returns exactly the first error answer, and stays pending only "
+                  "while the script contains no error and too little credit; tied to the source by the panic-site inventory (every "
+                  "unwrap/expect/assert/index/range, every + - * << >> pow and / % by a non-literal, every panicking Buf/BufMut/Bytes "
+                  "call on the receive-path files is listed with the guard or theorem that covers it; an unlisted site breaks the "
+                  "obligation) and by adversarial peer scripts over SimQuic with panics caught per case")
+    level_note = ("trusted: Lean kernel + 3 standard axioms; the models (tied by the other properties' correspondence runs; the guard "
+                  "of poll_recv_trailers is re-read from the source on every run: H3.Gen.ReqArms.trailersGuard, GenAgreeReq); "
+                  "tools/panic_sites.py + tools/panic_table.json (hand-written justifications, cited theorem names checked); debug "
+                  "assertions and overflow checks are ON in the harness build so wrap-arounds surface as panics; that the transport "
+                  "wakes every task parked on one of its calls when a stream or the connection ends (SimQuic does; observed at "
+                  "executor quiescence, R-06); memory exhaustion is out of scope; KNOWN FINDING D-06u (Huffman decoder's u32 bit "
+                  "positions overflow for a string literal of 2^29 bytes or more) is probed on every run")
     rule = ("adversarial peer scripts: grammar-mutated and arbitrary bytes on request, control, QPACK and unknown streams, random "
-            "chunking, FIN/RESET/STOP_SENDING/close/timeout injected at every step index of base scenarios, both roles, documented "
-            "call patterns; the same exchanges over a failing transport: faults (every ConnectionErrorIncoming / StreamErrorIncoming "
-            "variant) armed at every step index and at random positions on every transport call site (open, send_data, poll_ready, "
-            "poll_finish, accept, poll_data; k-th call), also before the connection is built; engine `flt`: the systematic fault "
-            "scenarios of tools/props/faults.py judged by H3.Spec.Faults (nothing pending once the transport has failed, no "
-            "unexplained error); non-trivial = at least one API call completed with a result other than no-task")
+            "chunking, FIN/RESET/STOP_SENDING/close/timeout injected at every step index of base scenarios (with and without valid "
+            "trailers and grease frames between / behind the frames), both roles, documented call patterns - and, on a tree with the "
+            "repair of D-06t, recv_data / recv_trailers in arbitrary order and number, going on after errors; SEND side: no write "
+            "credit / no stream credit by default, credit handed out a few bytes at a time so that send_response / send_data / "
+            "send_trailers / finish (grease frame) / send_request is left pending inside a frame, at a frame boundary or before its "
+            "first byte, THEN STOP_SENDING / RESET / close / timeout behind every prefix (a send call still pending after the peer's "
+            "STOP_SENDING or a close is a hang); WebTransport stream reads through both AsyncRead faces (engine wt), plain and in "
+            "FILL mode (one tokio ReadBuf / the unfilled sub-slice across calls, as read_exact does), buffer sizes that chunks "
+            "cross, reads before / between / after the deliveries, FIN / RESET / close / timeout; the same exchanges over a failing "
+            "transport: faults (every ConnectionErrorIncoming / StreamErrorIncoming variant) armed at every step index and at random "
+            "positions on every transport call site, also before the connection is built; engine `flt`: the systematic fault "
+            "scenarios of tools/props/faults.py judged by H3.Spec.Faults; a harness process that does not return from a line "
+            "within 10 s is a failing input (process-hang); non-trivial = at least one API call completed with a result other than "
+            "no-task")
     trusted = ["the decision tables of the receive paths (H3.Gen.FrameDispatch, ReqArms, FirstFrame, CtlArms, UniArms, FrameErrCodes) are re-read from the sources on this run and the models this property's theorems are about are proved to follow them (H3.Lemmas.GenAgreeFrame/GenAgreeReq/GenAgreeCtl, rebuilt on this run)"]
-    assumptions = ["'pending forever' is judged at executor quiescence after the script ended what the call waits on (R-06)"]
+    assumptions = ["'pending forever' is judged at executor quiescence after the script ended what the call waits on (R-06)",
+                   "recv_response is called once, before recv_data (its documentation); resolve_request consumes the resolver",
+                   "engine wt lines: the C19 driver predicts every observable (C19's projection); a closed connection reaches a "
+                   "WebTransport stream read as err:conn once h3's own buffer is empty"]
 
     # ---- the repair of D-06t (recv_trailers while a DATA payload is outstanding: `assert!` of poll_next)
     FIX_SUBJECT = "fix: recv_trailers answers an error instead of panicking while a DATA payload is outstanding"
